@@ -9,6 +9,7 @@ import TjdModel.Autojac.Prog
 import TjdModel.Autojac.Spec
 import TjdModel.Autojac.Heap
 import TjdModel.Autojac.Leaves
+import TjdModel.Autojac.Liveness
 namespace Tjd.Driver
 open Tjd SExp
 
@@ -329,10 +330,57 @@ def handle (req : SExp) : Option SExp := do
 
 end LeavesD
 
+/-! ### C13 liveness histories on an extracted autograd graph -/
+namespace LivenessD
+open Tjd.Liveness
+
+def parseLNode : SExp → Option LNode
+  | list [sv, list nxt] => do
+    let a ← sv.bool?
+    let es ← nxt.mapM fun e => match e with
+      | atom "none" => some (none : Option (Nat × Nat))
+      | list [c, nr] => do pure (some ((← c.nat?), (← nr.nat?)))
+      | _ => none
+    pure ⟨a, es⟩
+  | _ => none
+
+def pairs (e : SExp) : Option (List (Nat × Nat)) := do LeavesD.parsePairs (← e.list?)
+
+def parseOp : SExp → Option (List Call)
+  | list [atom "grad", outs, targets, retain] => do
+    pure [⟨← natList? outs, ← pairs targets, ← retain.bool?⟩]
+  | list [atom "backward", tensors, inputs, m, chunk, retain] => do
+    let c ← AutojacD.parseChunk chunk
+    pure (backwardCalls (← natList? tensors) (← pairs inputs) (← m.nat?) (c.map Int.toNat) (← retain.bool?))
+  | list [atom "mtl", list tasks, features, shared, chunk, retain] => do
+    let ts ← tasks.mapM fun t => match t with
+      | list [l, tg] => do pure ((← l.nat?), (← pairs tg))
+      | _ => none
+    let c ← AutojacD.parseChunk chunk
+    pure (mtlCalls ts (← pairs features) (← pairs shared) (c.map Int.toNat) (← retain.bool?))
+  | _ => none
+
+def handle (req : SExp) : Option SExp := do
+  let G ← (← req.field? "graph").mapM parseLNode
+  let ops ← req.field? "ops"
+  let mut dead : Option (List Nat) := some []
+  let mut out : List SExp := []
+  for op in ops do
+    let calls ← parseOp op
+    match dead with
+    | none => out := out ++ [atom "undefined"]
+    | some d =>
+      match runCalls G calls d with
+      | none => dead := none; out := out ++ [atom "err"]
+      | some d' => dead := some d'; out := out ++ [list [atom "ok", ofNats (sortNats d')]]
+  pure (list out)
+
+end LivenessD
+
 def handlers : List (String × (SExp → Option SExp)) :=
   [("typing", TypingD.handle), ("backward", AutojacD.handleBackward),
    ("mtl", AutojacD.handleMtl), ("jacobian", AutojacD.handleJacobian),
-   ("history", AutojacD.handleHistory), ("transform", AutojacD.handleTransform), ("leaves", LeavesD.handle)]
+   ("history", AutojacD.handleHistory), ("transform", AutojacD.handleTransform), ("leaves", LeavesD.handle), ("liveness", LivenessD.handle)]
 
 def handleLine (line : String) : String :=
   match SExp.parse line with
